@@ -87,9 +87,9 @@ PROP = {
             "Inputs: keys steered onto and next to every range bound by inverting CRC16 on 2-byte hash tags, onto / one byte short of / one byte off each "
             "prefix, reserved bookkeeping keys and near misses, brace arrangements, random bytes; a sweep of every slot 0..16383 (step 7 in quick) against "
             "adversarial range sets; commands from both regenerated keyspec tables in random case with arity below/at/above the row, extractor commands in "
-            "documented and broken shapes (numkeys 0/too large/non-numeric/leading zeros/up to 18 digits, dangling STORE/BY/GET, STREAMS with odd tails), "
+            "documented and broken shapes (numkeys 0/too large/non-numeric/leading zeros/up to 19 digits incl. 2^63-1, dangling STORE/BY/GET, STREAMS with odd tails), 43 well-formed commands with key positions from the Redis command reference (golden), "
             "unknown and non-ASCII command names. Each pair is evaluated by the real RedisKeyFilter (bare, and as wired by NewRedisOutput incl. the parser "
-            "loop parseAofCommand) and compared with the Lean model line by line and with an independent Go oracle (linear union of ranges, bytes.HasPrefix, "
+            "loop parseAofCommand on generated command streams with SELECT / PING / sentinel hello / blacklisted names) and compared with the Lean model line by line and with an independent Go oracle (linear union of ranges, bytes.HasPrefix, "
             "bitwise CRC16). distinct_nontrivial = distinct (config, key) with >1 rule of a kind and (config, command) whose outcome is reject/projection",
     "trusted": [
         "Redis Cluster HASH_SLOT as transcribed in Model/Slot.lean (proved equal to the model of redis.KeyToSlot in C11)",
@@ -97,7 +97,7 @@ PROP = {
     ],
     "assumptions": [
         "command names and option words are ASCII (Go folds case with Unicode rules: Kelvin sign, long s; the model folds ASCII only); configured command names are ASCII",
-        "numkeys arguments are below 2^62 (parseCommandInt wraps on int64 overflow; Redis itself rejects numkeys > argc before propagation)",
+        "numkeys arguments are below 2^63 (parseCommandInt accumulates in an int64 and wraps beyond; a Redis source rejects such counts before propagation)",
         "hand-written model functions (range list, trie, extractor bodies, FilterCmdKey, parser filter step) are tied by correspondence; the two keyspec tables, "
         "the partial-projection list, NoRouteCmds and the reserved prefixes are regenerated from source on every run",
         "the set of filter call sites in syncer/output.go and the Insert* wiring of NewRedisOutput are compared with the expected lists",
